@@ -98,8 +98,13 @@ def check(ctx):
             except Exception as e:
                 ctx.violation(d.name, 'identity-raises', '%s %s: %s' % (d.name, p, type(e).__name__), F, input=dict(a=p, b=p))
                 continue
-            if len(h) % 2 != 0 or not h.startswith('0x') or int(h, 16) != i:
-                ctx.violation(d.name, 'hex-form', '%s %s: hex %s int %d' % (d.name, p, h, i), F, input=dict(a=p, b=p))
+            def _parses_to(hs, want):
+                try:
+                    return len(hs) > 2 and int(hs, 16) == want
+                except (TypeError, ValueError):
+                    return False
+            if not isinstance(h, str) or len(h) % 2 != 0 or not h.startswith('0x') or not _parses_to(h, i):
+                ctx.violation(d.name, 'hex-form', '%s %s: hex %r does not parse back to int %d (or has an odd / zero number of digits)' % (d.name, p, h, i), F, input=dict(a=p, b=p))
             try:
                 if not (c == c.normalized_rlc if len(c.normalized_rlc) > 1 else c == c.normalized_rlc[0]):
                     ctx.violation(d.name, 'not-equal-own-timings', '%s %s' % (d.name, p), F, input=dict(a=p, b=p))
